@@ -200,9 +200,19 @@ fn memtable(seed: u64, scale: u64) {
 			let expected_value = &expected_value;
 			let done = &done;
 			let events = &events;
+			let accepted = &accepted;
+			let batch_of = &batch_of;
 			let mut rng = Rng::new(seed * 31 + r as u64);
 			s.spawn(move || {
-				let mut seen_before: BTreeSet<(Vec<u8>, u64)> = BTreeSet::new();
+				// An insertion links the new node into the forward chain first and sets the
+				// backward link of its successor afterwards: until `add` has returned, a forward
+				// walk may list an entry that a backward walk still steps over (the store
+				// publishes a commit only after its `add` has returned). So: what any walk has
+				// seen stays in forward walks; what a backward walk has seen stays in every
+				// walk; and whatever was added by an `add` that had returned before a walk began
+				// is in that walk, whichever its direction.
+				let mut must_fwd: BTreeSet<(Vec<u8>, u64)> = BTreeSet::new();
+				let mut must_bwd: BTreeSet<(Vec<u8>, u64)> = BTreeSet::new();
 				let mut round = 0;
 				while round < reader_rounds || !done.load(Ordering::Acquire) {
 					round += 1;
@@ -221,6 +231,7 @@ fn memtable(seed: u64, scale: u64) {
 					// (2) a walk in either direction is strictly ordered, holds every entry of the
 					// snapshot, only entries somebody wrote, and everything seen earlier
 					let forward = rng.below(2) == 0;
+					let completed: BTreeSet<u64> = accepted.lock().unwrap().clone();
 					let mut walk = match mt.scan(forward) {
 						Ok(w) => w,
 						Err(e) => violation(sc, seed, format!("reader {r}: scan failed: {e}")),
@@ -248,10 +259,20 @@ fn memtable(seed: u64, scale: u64) {
 							_ => violation(sc, seed, format!("reader {r}: walk returned {:?}@{} = {:?}, which nobody wrote", String::from_utf8_lossy(&e.0), e.1, String::from_utf8_lossy(&e.3))),
 						}
 					}
-					if let Some(lost) = seen_before.iter().find(|x| !now.contains(*x)) {
-						violation(sc, seed, format!("reader {r}: entry {:?}@{} seen in an earlier walk is gone", String::from_utf8_lossy(&lost.0), lost.1));
+					let dir = if forward { "forward" } else { "backward" };
+					let must = if forward { &must_fwd } else { &must_bwd };
+					if let Some(lost) = must.iter().find(|x| !now.contains(*x)) {
+						violation(sc, seed, format!("reader {r}: entry {:?}@{} listed by an earlier {} walk is gone from a {dir} walk (round {round})", String::from_utf8_lossy(&lost.0), lost.1, if forward { "forward or backward" } else { "backward" }));
 					}
-					seen_before = now;
+					for (k, s) in expected_value.keys() {
+						if completed.contains(&batch_of[s].0) && !now.contains(&(k.clone(), *s)) {
+							violation(sc, seed, format!("reader {r}: entry {:?}@{s}, whose add() had returned before the walk began, is missing from a {dir} walk (round {round})", String::from_utf8_lossy(k)));
+						}
+					}
+					if !forward {
+						must_bwd.extend(now.iter().cloned());
+					}
+					must_fwd.extend(now);
 					events.fetch_add(1, Ordering::Relaxed);
 					thread::yield_now();
 				}
